@@ -78,6 +78,15 @@ fn completion_within(m: &Matcher, depth: usize, budget: &mut usize) -> Option<bo
 fn gen_json_schema(rng: &mut Rng, depth: usize) -> serde_json::Value {
     use serde_json::json;
     let k = if depth == 0 { rng.below(6) } else { rng.below(10) };
+    // intersections whose two sides are alive separately but jointly empty after some prefix
+    if rng.chance(1, 4) {
+        let a = rng.below(300) as i64 - 50;
+        return match rng.below(3) {
+            0 => json!({"type": "integer", "minimum": a, "maximum": a + rng.range(1, 15) as i64, "multipleOf": rng.range(2, 9)}),
+            1 => json!({"type": "string", "pattern": *rng.pick(&["^a+bb$", "^[ab]*c$", "^(ab)+$", "^x[a-c]*yz$"]), "maxLength": rng.range(2, 5)}),
+            _ => json!({"type": "number", "minimum": a as f64 / 4.0, "maximum": a as f64 / 4.0 + rng.range(1, 6) as f64 / 8.0, "multipleOf": *rng.pick(&[0.5, 0.25, 0.2, 0.75])}),
+        };
+    }
     match k {
         0 => json!({"type": "integer", "minimum": rng.below(20) as i64 - 10, "maximum": rng.below(200) as i64 + 10}),
         1 => json!({"type": "integer", "multipleOf": rng.range(2, 7), "minimum": 1, "maximum": 100}),
@@ -172,7 +181,13 @@ pub fn run(rng: &mut Rng, out: &mut Out, tier: &str) {
         let mut r = rng.fork(i as u64);
         let (ws, eos) = if r.chance(1, 3) { single_byte_vocab() } else { gen_engine_vocab(&mut r, 30) };
         let env = make_env(&ws, eos, false);
-        if i % 2 == 0 {
+        if i % 5 == 4 {
+            // a terminal built with & / ~ whose sides can each continue while their intersection cannot
+            let mut t = String::new();
+            gen_rx_tension(&mut r).to_lark_term(&mut t);
+            let lark = format!("start: T \"!\"\nT: {t}\n");
+            walk_case(&mut r, out, &env, &ws, eos, TopLevelGrammar::from_lark(lark.clone()), &lark, "tension");
+        } else if i % 2 == 0 {
             // productive CFG over non-confusable terminals
             let g = crate::c05::gen_cfg_pub(&mut r);
             let lark = g.to_lark();
